@@ -17,7 +17,7 @@ crate nor by `RouteIp::match_ip` nor by `Request`); `Any` contains every address
 
 Parser: exactly the canonical texts the harness generates – `any`, dotted-quad IPv4 (`std` syntax: 1–3
 decimal digits per octet, no leading zero), IPv6 as `:`-separated groups of 1–4 hex digits, eight of them or
-fewer with one `::` (no embedded IPv4), optional `/len` with a plain decimal length; anything else is `none`
+fewer with one `::`, the last 32 bits optionally as an embedded dotted quad, optional `/len` with a plain decimal length; anything else is `none`
 (= `Err`, and `route_ips` then drops the entry).
 -/
 
@@ -148,9 +148,20 @@ def parseGroup (cs : List Char) : Option Nat :=
   if cs.isEmpty || cs.length > 4 then none
   else (allSome (cs.map hexVal)).map fun ds => ds.foldl (fun acc d => acc * 16 + d) 0
 
-/-- Groups of one side of a `::` (the empty text is no group). -/
-def parseGroups (cs : List Char) : Option (List Nat) :=
-  if cs.isEmpty then some [] else allSome ((splitOn ':' cs).map parseGroup)
+/-- Groups of one side of a `::` (the empty text is no group).  With `tail` (the text runs to the end of the address) the last
+group may be an embedded dotted quad (`::ffff:10.1.2.3`), which stands for two groups. -/
+def parseGroups (tail : Bool) (cs : List Char) : Option (List Nat) :=
+  if cs.isEmpty then some []
+  else
+    let parts := splitOn ':' cs
+    match parts.getLast? with
+    | some last =>
+      if tail && last.contains '.' then
+        match parseV4 last, allSome ((parts.dropLast).map parseGroup) with
+        | some v, some gs => some (gs ++ [v / 65536, v % 65536])
+        | _, _ => none
+      else allSome (parts.map parseGroup)
+    | none => some []
 
 /-- Split at the first `::`. -/
 def splitDoubleColon : List Char → Option (List Char × List Char)
@@ -165,11 +176,11 @@ def v6OfGroups (gs : List Nat) : Nat := gs.foldl (fun acc g => acc * 65536 + g) 
 def parseV6 (cs : List Char) : Option Nat :=
   match splitDoubleColon cs with
   | none =>
-    match parseGroups cs with
+    match parseGroups true cs with
     | some gs => if gs.length = 8 then some (v6OfGroups gs) else none
     | none => none
   | some (l, r) =>
-    match parseGroups l, parseGroups r with
+    match parseGroups false l, parseGroups true r with
     | some gl, some gr =>
       if gl.length + gr.length ≤ 7 ∧ (splitDoubleColon r).isNone ∧ r.head? ≠ some ':' then
         some (v6OfGroups (gl ++ List.replicate (8 - gl.length - gr.length) 0 ++ gr))
@@ -190,8 +201,11 @@ def rsplitSlash (cs : List Char) : Option (List Char × List Char) :=
   | last :: restRev =>
     some ((restRev.reverse.intersperse ['/']).flatten, last)
 
-/-- `parse_prefix_len`: a `u8`. -/
+/-- `parse_prefix_len`: `u8::from_str` (an optional leading `+`, then digits). -/
 def parsePrefixLen (cs : List Char) : Option Nat :=
+  let cs := match cs with
+    | '+' :: rest => rest
+    | _ => cs
   match parseDec cs with
   | some n => if n ≤ 255 then some n else none
   | none => none
